@@ -817,8 +817,8 @@ func genRegistryCase(p *prng, malformed bool, maxLen int) []string {
 		switch k := p.intn(100); {
 		case k < 18:
 			t := pick(p, []int{1, 2, 3, 3, 4})
-			if malformed && p.chance(1, 4) {
-				t = pick(p, []int{0, 5, 9})
+			if p.chance(1, 9) || (malformed && p.chance(1, 4)) {
+				t = pick(p, []int{0, 5, 9}) // a node whose Type() is none of the four known ones
 			}
 			ops = append(ops, fmt.Sprintf("regnode %d %d %s %d %s", id(), t, pick(p, regBehs), p.intn(2), pol()))
 		case k < 26:
